@@ -616,7 +616,8 @@ def replay(path: str) -> int:
                 _, fails = run_impl(case, Path(t) if case["kind"] == "real" else None)
             except Exception as e:  # noqa: BLE001
                 fails = [(d.get("signature"), f"{type(e).__name__}: {e}")]
-        fails = [f for f in fails if f[0] == d.get("signature")] or fails
+        known_open = {k["signature"] for k in common.load_known() if k["property"] == d.get("property") and k.get("status") == "open"}
+        fails = [f for f in fails if f[0] == d.get("signature")] or [f for f in fails if f[0] not in known_open]
         if fails:
             print(f"replay: still failing: [{fails[0][0]}] {fails[0][1]}")
             print(f"VIOLATION property=C19 replay={path}")
